@@ -250,18 +250,23 @@ PLAN["C04"] = dict(
 
 PLAN["C06"] = dict(
     level="other",
-    functions=[(ORDER, "decompose_and_order#numbering"), (ORDER, "decompose_and_order#orientation")],
-    explanation="PROVED (relative to the decomposition handed over by biccs/dfs, which is bounded-checked in C15): the numbering loop gives the "
+    functions=[(ORDER, "decompose_and_order#numbering"), (ORDER, "decompose_and_order#orientation"), (GFA, "GFA.graph_from_comp"), (GFA, "GFA.dfs")],
+    explanation="PROVED (relative to the decomposition handed over by biccs, which is bounded-checked in C15): graph_from_comp builds a sub-graph with "
+                "exactly the component's nodes, their adjacency and tags, well-formed because the component is closed under adjacency; dfs visits every "
+                "node of its component exactly once starting at the start node (so the traversal of a line-shaped scaffold graph from a degree-1 node "
+                "lists every chain element once). The numbering loop gives the "
                 "t-th chain element BO = bo_start + t, scaffold nodes NO = 0, the inner nodes of a bubble that BO and NO = 1 + their rank in "
                 "python's sorted() of the ids, and returns bo_start + chain length (so successive chromosomes get consecutive, disjoint ranges "
                 "in request order); the orientation step leaves scaffold offsets ascending and reverses the traversal iff the end offsets were "
                 "descending. BOUNDED: that the traversal handed over is the bubble chain (biccs/dfs/census), independence of line order, of "
                 "PYTHONHASHSEED and of earlier BO/NO tags, end-to-end on generated chain graphs with a definitional oracle.",
-    trusted_base=["biccs / dfs / scaffold-graph census deliver the chain (elements distinct, bubbles disjoint): assumed here, BOUNDED in C15/C06",
+    trusted_base=["biccs / scaffold-graph census deliver the chain (elements distinct, bubbles disjoint; dfs order along a line graph = chain order): assumed here, BOUNDED in C15/C06",
+                  "graph_from_comp's nodes share their adjacency sets and tag dictionaries with the original graph (aliasing, not modelled; the copy is only read)",
                   "python string order is an uninterpreted strict total order str_lt; sorted(set) lists the members increasingly (assumed)",
                   "single-scaffold end-bubble offsets (min over a comprehension): BOUNDED only"],
     not_applicable_clauses=["biccs beyond the enumerated bound (inherited from C15)"],
     mutations=[
+        dict(name="graph_from_comp swaps the two sides", file=GFA, old="            new_node.start = self[n].start\n            new_node.end = self[n].end", new="            new_node.start = self[n].end\n            new_node.end = self[n].start", expect="graph_from_comp", functions=[(GFA, "GFA.graph_from_comp")]),
         dict(name="NO starts at 0", file=ORDER, old="                node_order[n] = (bo, i + 1)", new="                node_order[n] = (bo, i)", expect="numbering"),
         dict(name="bo incremented only for scaffold nodes", file=ORDER, old="            assert False\n        bo += 1", new="            assert False\n        if node_type == \"s\":\n            bo += 1", expect="numbering"),
         dict(name="traversal not reversed", file=ORDER, old="        traversal.reverse()\n        traversal_scaffold_only.reverse()", new="        traversal_scaffold_only.reverse()", expect="orientation"),
